@@ -3,7 +3,8 @@
 
   Two kinds of statement:
 
-  * **Strictness** (`C03_strict_chunks`, `C03_strict_file_pass`, `C03_strict_file`, `C03_*_magic`): proved outright,
+  * **Strictness** (`C03_strict_chunks` and its converse `C03_strict_chunks_exact`, `C03_strict_file_pass`,
+    `C03_strict_file`, `C03_*_magic`, `C03_truncation_outright`, `C03_extension_outright`): proved outright,
     for every input byte string, from the functional AEAD laws only.  Apart from the 8 advisory counter bytes of each
     record there is exactly one accepted byte string per (chunk list, flag bytes): no slack, no trailing bytes, no
     alternative framing.
@@ -16,7 +17,7 @@
 
   Remark on `NoForgeryFrom` (KestrelProofs/Chunks.lean): as a *global* hypothesis it is inconsistent with
   `Aead.Lawful.dec_enc` at the same key (sealing a fresh plaintext under the key yields something that opens and is
-  not honest).  The reductions are therefore stated per input with `ForgeryIn` as a disjunct, which is consistent with
+  not honest; proved as `NoForgeryFrom.contradicts_dec_enc` in KestrelProofs/Strict.lean).  The reductions are therefore stated per input with `ForgeryIn` as a disjunct, which is consistent with
   `Lawful`; the `NoForgeryFrom` form (`C03_chunks_nf`) is given under the per-key laws `Aead.SoundAt` (no `dec_enc`),
   for which a witness AEAD exists (`tableAead` below).
 -/
